@@ -89,6 +89,7 @@ type rsServer struct {
 	reqs    []rsFrame // the request frames (pings) among them
 	acks    []rsFrame // the msgs_ack frames among them
 	held    []uint64  // msg_ids taken earlier for messages that are delivered late (plan step "h")
+	slots   map[int]rsFrame // msg_id and seq_no of container members that are delivered again (member "#<slot>(item)")
 	last    []byte    // the last top-level packet sent, for a verbatim re-send (plan step "=")
 	lastLog string
 	nextID  uint64
@@ -125,11 +126,12 @@ func (s *rsServer) acceptLoop() {
 		s.cond.Broadcast()
 		s.mu.Unlock()
 		s.log.add("N:%d", n)
-		go s.readLoop(c)
+		go s.readLoop(c, n)
 	}
 }
 
-func (s *rsServer) readLoop(c net.Conn) {
+func (s *rsServer) readLoop(c net.Conn, connNo int) {
+	keySeen := false
 	ann := make([]byte, 4)
 	if _, err := io.ReadFull(c, ann); err != nil {
 		return
@@ -149,6 +151,12 @@ func (s *rsServer) readLoop(c net.Conn) {
 			s.mu.Unlock()
 			s.log.add("P:%d", len(pkt))
 			continue
+		}
+		if !keySeen && len(pkt) >= 8 {
+			// A:<n>:<auth_key_id>: the key id the client uses on connection n (first encrypted frame): the lifecycle
+			// model (lean/Mtv/Client/Lifecycle.lean, replayed by lean/Driver/C16Life.lean) asks for the same on every one
+			keySeen = true
+			s.log.add("A:%d:%d", connNo, binary.LittleEndian.Uint64(pkt))
 		}
 		m, why := envOpen(0, s.key, pkt, true)
 		if why != "" {
@@ -1173,10 +1181,12 @@ func rsWarnClass(err error) string {
 		return "unregistered"
 	case strings.Contains(s, "msgID"):
 		return "unknown-req-id"
+	case strings.HasPrefix(s, "reading message") && !strings.Contains(s, "parsing message"):
+		// the connection could not be read any further (timeout — "required to reconnect!" —, reset, a frame cut
+		// short): it is replaced. Before "reconnect": that class is the dial that failed ("can't reconnect")
+		return "conn-broken"
 	case strings.Contains(s, "reconnect"):
 		return "reconnect"
-	case strings.HasPrefix(s, "reading message") && !strings.Contains(s, "parsing message"):
-		return "conn-broken" // the connection could not be read any further (timeout, reset, a frame cut short): it is replaced
 	case strings.Contains(s, "sending ack"):
 		return "ackfail" // the consequence of an injected write fault (event F), not a message the client could not handle
 	case strings.Contains(s, "saving session"):
@@ -1408,16 +1418,35 @@ func (r *rsRun) item(it string) (body []byte, content bool, desc string, ok bool
 		body := rsCat(rsU32(rsCrcContainer), rsU32(uint32(len(inner))))
 		var descs []string
 		for _, in := range inner {
+			// #<slot>(<item>): a member that is delivered again — the first use of a slot takes a msg_id and a
+			// seq_no as usual, every later use (in this container, a nested one or a later one) carries the same two
+			slot := -1
+			if strings.HasPrefix(in, "#") && strings.HasSuffix(in, ")") && strings.Index(in, "(") > 1 {
+				slot = atoi(in[1:strings.Index(in, "(")])
+				in = in[strings.Index(in, "(")+1 : len(in)-1]
+			}
 			b, content, desc, ok := r.item(in)
 			if !ok {
 				return nil, false, "", false
 			}
 			r.srv.mu.Lock()
-			mid := r.srv.newMsgID()
-			seq := r.srv.content * 2
-			if content {
-				seq++
-				r.srv.content++
+			var mid uint64
+			var seq uint32
+			if again, have := r.srv.slots[slot]; slot >= 0 && have {
+				mid, seq = again.Mid, again.Seq
+			} else {
+				mid = r.srv.newMsgID()
+				seq = r.srv.content * 2
+				if content {
+					seq++
+					r.srv.content++
+				}
+				if slot >= 0 {
+					if r.srv.slots == nil {
+						r.srv.slots = map[int]rsFrame{}
+					}
+					r.srv.slots[slot] = rsFrame{Mid: mid, Seq: seq}
+				}
 			}
 			r.srv.mu.Unlock()
 			body = rsCat(body, rsU64(mid), rsU32(seq), rsU32(uint32(len(b))), b)
@@ -1742,7 +1771,7 @@ func (r *rsRun) runPlan(plan string) string {
 			// the client's acknowledgements unread (drop), reset (rst), or in the middle of a frame (cut<n>:<item>, n
 			// bytes of the frame arrive). The client must come back on a new connection with the same key.
 			before := r.srv.conns
-			r.log.add("C")
+			r.log.add("C:%s", map[bool]string{true: "cut", false: st}[strings.HasPrefix(st, "cut")])
 			switch {
 			case st == "drop":
 				r.srv.dropConn()
@@ -1861,7 +1890,7 @@ func (r *rsRun) runPlan(plan string) string {
 			}
 		case st == "X": // the application reconnects (what PHONE_MIGRATE does too): Reconnect() from another goroutine
 			before := r.srv.conns
-			r.log.add("C")
+			r.log.add("C:app")
 			done := make(chan error, 1)
 			go func() { done <- r.m.Reconnect() }()
 			select {
@@ -1878,7 +1907,7 @@ func (r *rsRun) runPlan(plan string) string {
 			time.Sleep(4 * time.Millisecond)
 		case st == "close":
 			before := r.srv.conns
-			r.log.add("C")
+			r.log.add("C:eof")
 			r.srv.closeConn()
 			if !r.srv.waitConns(before+1, 3*time.Second) {
 				return "no-reconnect"
@@ -1929,6 +1958,9 @@ func rsScenario(kindsCSV, plan string) (trace string, note string) {
 		}
 		r.log.add("F:k:%s", strings.Join(xs, "+"))
 	}
+	// Z: the scenario is over; the peer goes away now. The client loses the connection, its redial fails
+	// ("can't reconnect", V:reconnect if it is logged in time) and it gives up: lifecycle events after the end
+	r.log.add("Z")
 	r.finish()
 	ev := r.log.snapshot()
 	return strings.Join(ev, ","), note
@@ -1943,9 +1975,9 @@ func (r *rsRun) lostAcks() []uint64 {
 	if len(lost) == 0 {
 		return nil
 	}
-	missing := map[uint64]bool{}
+	missing := map[uint64]int{}
 	for _, id := range rsMissingAcks(evs) {
-		missing[id] = true
+		missing[id]++
 	}
 	var out []uint64
 	gen := 0
@@ -1955,9 +1987,9 @@ func (r *rsRun) lostAcks() []uint64 {
 			gen = atoi(e[2:])
 		case strings.HasPrefix(e, "R:") && lost[gen]:
 			for _, s := range rsFlattenR(e) {
-				if s.seq%2 == 1 && missing[s.mid] {
+				if s.seq%2 == 1 && missing[s.mid] > 0 {
 					out = append(out, s.mid)
-					delete(missing, s.mid)
+					missing[s.mid]--
 				}
 			}
 		}
@@ -2062,9 +2094,10 @@ func rsSplitTop(s string, sep byte) []string {
 	return append(out, s[start:])
 }
 
-// rsMissingAcks: ids of content-related server messages (odd seq_no) that no msgs_ack names.
+// rsMissingAcks: ids of content-related server messages (odd seq_no) that no msgs_ack names — with multiplicity: a
+// message delivered n times (the same msg_id again) and named k < n times is listed n-k times.
 func rsMissingAcks(evs []string) []uint64 {
-	acked := map[uint64]bool{}
+	acked := map[uint64]int{}
 	var need []uint64
 	for _, e := range evs {
 		switch {
@@ -2073,13 +2106,13 @@ func rsMissingAcks(evs []string) []uint64 {
 			if len(p) >= 7 {
 				for _, id := range strings.Split(p[6], "+") {
 					v, _ := strconv.ParseUint(id, 10, 64)
-					acked[v] = true
+					acked[v]++
 				}
 			}
 		case strings.HasPrefix(e, "F:k:"):
 			for _, id := range strings.Split(e[4:], "+") {
 				v, _ := strconv.ParseUint(id, 10, 64)
-				acked[v] = true
+				acked[v]++
 			}
 		case strings.HasPrefix(e, "R:"):
 			for _, s := range rsFlattenR(e) {
@@ -2091,7 +2124,9 @@ func rsMissingAcks(evs []string) []uint64 {
 	}
 	var miss []uint64
 	for _, id := range need {
-		if !acked[id] {
+		if acked[id] > 0 {
+			acked[id]--
+		} else {
 			miss = append(miss, id)
 		}
 	}
